@@ -378,6 +378,11 @@ def num_family(ctx, configs):
         out = run_driver(ctx, drv, "num", trace, config=cfgname)
         ctx.log("driver[%s]:" % cfgname, out.strip())
         mism += validate_trace(ctx, "TraceNum.tla", "TraceNum.cfg", trace, classify=num_class)
+        # field calls whose result limbs were compared, limb for limb, with the limb-level transcription (FieldLimbsBig); differences are NOTEs
+        known = {"Add", "AddAfterBasic", "AddReduce", "Sub", "SubAfterBasic", "SubReduce", "Neg", "Mul", "Square", "SquareTimes"}
+        n = sum(1 for ln in open(trace) if '"op":"field"' in ln.replace(" ", "") and json.loads(ln).get("f") in known)
+        ctx.notes["limb_exact_events"] = ctx.notes.get("limb_exact_events", 0) + n
+    ctx.notes.setdefault("model_notes", 0)
     report_mismatches(ctx, mism)
 
 
